@@ -3,9 +3,19 @@
    of the repaired C code: see the "fix:" commits on merge_messages) do, rule by rule.
    Totality (Proofs/MergeSafe.v with Proofs/UnpackSafe.v): merging two well-shaped messages of one type always
    succeeds with a well-shaped message of that type, and everything the parser returns is well-shaped; so a
-   later occurrence of an embedded message can always be merged into the earlier one. *)
+   later occurrence of an embedded message can always be merged into the earlier one.
+   Required fields: a required SUB-MESSAGE present in both occurrences is merged recursively, exactly like an
+   optional one (merge_messages used to skip required fields altogether, so that the earlier occurrence's
+   sub-message was dropped; see the "fix:" commit); any other required field keeps the latter value.
+   Protobuf's own formulation (Proofs/ConcatScan.v, ConcatField.v, ConcatMerge.v): parsing the concatenation of two
+   encodings gives the merge of the two messages -- for every environment, every two canonical messages of one
+   type, with no condition on the descriptor: unpack (pack m1 ++ pack m2) = merge_messages m1 m2, both succeeding.
+   The input is at most max_input = 268435425 bytes long (beyond that protobuf_c_message_unpack may run out of
+   ScannedMember slabs: Proofs/MemberCount.v).  The pair that used to separate the two sides -- a required
+   sub-message sent twice -- is the non-vacuity example. *)
 From Coq Require Import ZArith List Bool.
-From PBC Require Import Base.CInt Impl.Desc Impl.Mem Impl.Enc Impl.Unpack Impl.Canon Proofs.Merge Proofs.Shape Proofs.MergeSafe Proofs.UnpackSafe.
+From PBC Require Import Base.CInt Impl.Desc Impl.Mem Impl.Enc Impl.Pack Impl.Unpack Impl.Canon Proofs.Merge Proofs.Shape Proofs.MergeSafe Proofs.UnpackSafe
+     Proofs.ConcatMerge.
 From PBC Require Proofs.LeafSafe.
 Import ListNotations.
 Local Open Scope Z_scope.
@@ -71,6 +81,18 @@ Theorem C10_submessage_only_in_earlier_kept : forall rec f eh em lh, (f_label f 
 Proof. exact merge_submessage_earlier_only. Qed.
 Print Assumptions C10_submessage_only_in_earlier_kept.
 
+(* a required sub-message present in both occurrences is merged recursively, like an optional one *)
+Theorem C10_required_submessage_both : forall rec f eh em lh lm, f_label f = LRequired -> f_type f = TMessage ->
+  merge_slot rec f (SOne eh (VMsg (Some em))) (SOne lh (VMsg (Some lm))) = (do m <- rec em lm; Ok (SOne lh (VMsg (Some m)))).
+Proof. exact merge_required_submessage_both. Qed.
+Print Assumptions C10_required_submessage_both.
+
+(* any other required field: the latter value *)
+Theorem C10_required_other_latter_kept : forall rec f es ls, f_label f = LRequired -> f_type f <> TMessage ->
+  merge_slot rec f es ls = Ok ls.
+Proof. exact merge_required_other_latter. Qed.
+Print Assumptions C10_required_other_latter_kept.
+
 (* a oneof already set is carried over unless a later occurrence sets it again *)
 Theorem C10_oneof_carried_over : forall rec md g ec ev lv i f, ec <> 0 ->
   find_field md ec = Some i -> nth_error (md_fields md) i = Some f -> in_group f g = true -> f_type f <> TMessage ->
@@ -108,3 +130,32 @@ Proof.
   exists m. repeat split; [exact Hm | exact Sm | congruence].
 Qed.
 Print Assumptions C10_merge_total_on_parser_results.
+
+(* protobuf's own formulation: parsing the concatenation of two encodings gives the merge of the two messages *)
+Theorem C10_concatenation_parses_to_merge : forall (E : env) (m1 m2 : msg) (b1 b2 : list Z),
+  env_ok E = true -> canon_msg E m1 = true -> canon_msg E m2 = true -> m_desc m1 = m_desc m2 ->
+  pack_msg E m1 = Ok b1 -> pack_msg E m2 = Ok b2 -> Z.of_nat (length (b1 ++ b2)) <= 268435425 ->
+  unpack_top E (m_desc m1) (b1 ++ b2) = merge_messages E m1 m2.
+Proof. exact concatenation_parses_to_merge. Qed.
+Print Assumptions C10_concatenation_parses_to_merge.
+
+(* ... and both sides succeed *)
+Theorem C10_concatenation_parses_to_merge_ok : forall (E : env) (m1 m2 : msg) (b1 b2 : list Z),
+  env_ok E = true -> canon_msg E m1 = true -> canon_msg E m2 = true -> m_desc m1 = m_desc m2 ->
+  pack_msg E m1 = Ok b1 -> pack_msg E m2 = Ok b2 -> Z.of_nat (length (b1 ++ b2)) <= 268435425 ->
+  exists m, merge_messages E m1 m2 = Ok m /\ unpack_top E (m_desc m1) (b1 ++ b2) = Ok m.
+Proof. exact concatenation_parses_to_merge_ok. Qed.
+Print Assumptions C10_concatenation_parses_to_merge_ok.
+
+(* non-vacuity, on the pair that used to separate the two sides: a required sub-message sent twice
+   (message 0 { required message-1 a = 1 }, message 1 { optional int32 x = 1; optional int32 y = 2 },
+   m1 = { a = { x = 5 } }, m2 = { a = { y = 7 } }): the hypotheses hold, and both sides give { a = { x = 5, y = 7 } } *)
+Theorem C10_concatenation_required_submessage_example :
+  env_ok cx_env = true /\ canon_msg cx_env cx_m1 = true /\ canon_msg cx_env cx_m2 = true /\
+  exists b1 b2, pack_msg cx_env cx_m1 = Ok b1 /\ pack_msg cx_env cx_m2 = Ok b2 /\
+    Z.of_nat (length (b1 ++ b2)) <= 268435425 /\
+    unpack_top cx_env 0 (b1 ++ b2) = merge_messages cx_env cx_m1 cx_m2 /\
+    merge_messages cx_env cx_m1 cx_m2 =
+      Ok (Msg 0 [SOne 0 (VMsg (Some (Msg 1 [SOne 1 (VWord 5); SOne 1 (VWord 7)] [] [])))] [] []).
+Proof. exact required_submessage_example. Qed.
+Print Assumptions C10_concatenation_required_submessage_example.
